@@ -381,7 +381,7 @@ CLAIM11 = dict(
          "real RuntimeHash is a counterexample; one history per distinct reachable state is replayed against the real plz binary: exit "
          "status, per-target outcome from test_results.xml and the executed test commands (action log) are compared with the spec's "
          "expectation, and the expectation with a real fresh run of the same tree.",
-    note="Bounded: 2 tests, 4 files x 2 contents, <=2 (quick, 100 sampled) / <=3 (thorough, 1400 sampled) edits, sequential invocations, no cache "
+    note="Bounded: 2 tests, 4 files x 2 contents, <=2 (quick, 100 sampled) / <=3 (thorough, 1000 sampled) edits; at most one invocation with test arguments per history, sequential invocations, no cache "
          "configured, one run per test (no flakes / --num_runs); reuse is judged against the REAL execution history of the replay; trusted: "
          "the action log written by the generated test commands, test_results.xml as the per-target report, TLC, SHA collision freedom.",
     technique="TLA+ spec TestReuse.tla model-checked with TLC; TLC-generated edit/test histories replayed e2e into the real plz binary and compared with the spec's fresh outcome, itself cross-checked by a real fresh run")
@@ -427,7 +427,7 @@ def run_c11(ctx):
             b2, b3 = uniq_sorted(r2.behaviours), uniq_sorted(r3.behaviours)
             total = len(b2) + len(b3)
             rng = random.Random(ctx.seed)
-            behs = c11_sample(b2, sample_size(700), rng) + c11_sample(b3, sample_size(700), rng)
+            behs = c11_sample(b2, sample_size(500), rng) + c11_sample(b3, sample_size(500), rng)
     ctx.extra["histories_enumerated_by_tlc"] = total
     with ThreadPoolExecutor(max_workers=12) as ex:
         futs = [ex.submit(c11_replay, ctx, i, b, {}) for i, b in enumerate(behs)]
